@@ -32,6 +32,9 @@ def run(ctx):
                 sigs[jk + "2"] = mk(1, P) if gpg else {"signature": "é"}
             for t in (1, 2):
                 cfg.append({"w": wire.case("verify_signable", {"signatures": sigs, "signed": P}, [k0, k1], t, gpg), "meta": {"s": "cfg"}})
+        # a well-formed entry of the OTHER mode under an authorized key next to a valid one: ignored, whatever the environment
+        other = E.raw_sig(1, P) if gpg else E.gpg_sig(1, P)
+        cfg.append({"w": wire.case("verify_signable", {"signatures": {k1: other, k0: mk(0, P)}, "signed": P}, [k0, k1], 1, gpg), "meta": {"s": "cfg"}})
     # shipped fixtures
     td = os.path.join(core.REPO, "tests", "testdata")
     r1, r2, km = (json.load(open(os.path.join(td, n))) for n in ("1.root.json", "2.root.json", "key_mgr.json"))
